@@ -350,16 +350,21 @@ func calcStatusCode(cfg *ResponseConfig, a *asset, segmentPart string, nowMS int
 		// Next we need to find the number after wrap
 		// For that we need to find the first segment nr after wrapStart
 		// Use nowMS = cycleStart to look up the latest segment published at that time
+		// firstNr is counted from availabilityStartTime. Segment numbers are offset by the start number
+		// and the cycle start is relative to the start time.
+		startNr := cfg.getStartNr()
 		firstNr := 0
 		if nrWraps > 0 {
-			lastNr := findLastSegNr(cfg, a, wrapStartS*1000, segMeta.rep)
-			firstNr = lastNr + 1
+			lastNr := findLastSegNr(cfg, a, (wrapStartS+cfg.StartTimeS)*1000, segMeta.rep)
+			if lastNr >= 0 {
+				firstNr = lastNr + 1
+			}
 		}
-		segTime := findSegStartTime(a, cfg, firstNr, segMeta.rep)
+		segTime := findSegStartTime(a, cfg, firstNr+startNr, segMeta.rep)
 		if segTime < wrapStartS*repTimescale {
 			firstNr += 1
 		}
-		idx := int(segMeta.newNr) - firstNr
+		idx := int(segMeta.newNr) - startNr - firstNr
 		if idx < 0 {
 			return 0, fmt.Errorf("segment %d is before first segment %d", segMeta.newNr, firstNr)
 		}
